@@ -164,8 +164,11 @@ class Ctx:
         self.notes["harness_build_s"] = round(time.time() - t, 1)
 
     def harness(self, args, timeout=3600):
-        p = subprocess.run([HARNESS_BIN] + [str(a) for a in args], capture_output=True, text=True,
-                           timeout=timeout, cwd=self.work)
+        try:
+            p = subprocess.run([HARNESS_BIN] + [str(a) for a in args], capture_output=True, text=True,
+                               timeout=timeout, cwd=self.work)
+        except subprocess.TimeoutExpired:
+            raise ToolError(f"harness {args[0]} did not finish within {timeout} s")
         if p.returncode != 0:
             raise ToolError(f"harness {args[0]} failed rc={p.returncode}: {p.stderr[-2000:]}")
         try:
